@@ -125,41 +125,69 @@ theorem rust_flags_lift_signext_partial (n w : Nat) (hn : n ≤ 32) :
 
 /-! ## Round trips as corollaries of the generic theorems (named hypotheses where not yet proved) -/
 
-/-- C01, lifting direction, as a statement (not yet a theorem for all types): whatever the spec lifts
-from core values, the generated lifting code evaluates to. -/
-def LiftFlatCorrect (p : Nat) (c : Cfg) : Prop :=
-  ∀ (t : Ty) (cs : List CVal) (m : Spec.Mem) (v : Val) (lvl : Nat) (xs : List Expr) (e : Expr) (env : Env),
-    env.p = p → env.frames.length = lvl + 1 → Spec.liftFlat p m t cs = some v →
+/-- C01, lifting direction, at type `t`, as a statement (a theorem for memory-free types:
+`C01.lift_flat_correct`; proved below for `string`; open for the other types that use linear memory):
+whatever the spec lifts from core values, the generated lifting code evaluates to. -/
+def LiftFlatCorrectAt (p : Nat) (c : Cfg) (t : Ty) : Prop :=
+  ∀ (cs : List CVal) (m : Spec.Mem) (v : Val) (lvl : Nat) (xs : List Expr) (e : Expr) (env : Env),
+    env.p = p → Spec.liftFlat p m t cs = some v →
     evalList env m xs = some (cs.map MV.c) → lift c lvl t xs = .ok e → eval env m e = some (.v v)
 
-/-- the spec's own flat round trip (C01 `roundtrip`), as a statement -/
-def SpecRoundtripFlat (p : Nat) : Prop :=
-  ∀ (t : Ty) (v : Val) (st : Spec.St), Spec.hasTy t v = true →
+/-- the spec's own flat round trip at type `t` (C01 `roundtrip`), as a statement (a theorem for
+memory-free types: `liftFlat_lowerFlat`; for `string`: `liftFlat_lowerFlat_string`) -/
+def SpecRoundtripFlatAt (p : Nat) (t : Ty) : Prop :=
+  ∀ (v : Val) (st : Spec.St), Spec.hasTy t v = true →
     Spec.liftFlat p (Spec.lowerFlat p t v st).2.mem t (Spec.lowerFlat p t v st).1 = some v
 
-/-- **Host → guest (export arguments).**  If the host lowers `v` per the spec and the guest's
+/-- **Host → guest (export arguments).**  If the host lowers `v : t` per the spec and the guest's
 generated lifting code (Rust configuration) is run on those core values in the resulting memory,
-the user function receives `v`.  `_partial`: conditional on the two generic statements above
-(C01 `lift_flat_correct`, C01 `roundtrip`), which are not yet available as theorems for types that
-use linear memory. -/
-theorem rust_export_roundtrip_partial (p : Nat) (hL : LiftFlatCorrect p (rustCfg true)) (hR : SpecRoundtripFlat p)
-    (t : Ty) (v : Val) (st : Spec.St) (hv : Spec.hasTy t v = true)
-    (xs : List Expr) (e : Expr) (env : Env) (hp : env.p = p) (hf : env.frames.length = 1)
+the user function receives `v`.  `_partial`: a plain composition, conditional on the two statements
+above *at `t`*; they are theorems for memory-free `t` (→ `rust_export_roundtrip_memfree`, unconditional)
+and for `string` (→ `rust_export_roundtrip_string`, unconditional), and are not yet available for
+lists / maps (C01 has `load_correct` / `store_correct_all` for all types; the flat list forms are open). -/
+theorem rust_export_roundtrip_partial (p : Nat) (t : Ty) (hL : LiftFlatCorrectAt p (rustCfg true) t)
+    (hR : SpecRoundtripFlatAt p t) (v : Val) (st : Spec.St) (hv : Spec.hasTy t v = true)
+    (xs : List Expr) (e : Expr) (env : Env) (hp : env.p = p)
     (hx : evalList env (Spec.lowerFlat p t v st).2.mem xs = some ((Spec.lowerFlat p t v st).1.map MV.c))
     (hl : lift (rustCfg true) 0 t xs = .ok e) :
     eval env (Spec.lowerFlat p t v st).2.mem e = some (.v v) :=
-  hL t _ _ v 0 xs e env hp hf (hR t v st hv) hx hl
+  hL _ _ v 0 xs e env hp (hR v st hv) hx hl
 
-/-- **Guest → host (import arguments, export results), memory-free types.**  The host lifts exactly
-the value the Rust code passed: the generated lowering yields the spec's core values
-(`rust_lower_flat_is_spec`, unconditional) and the spec lifts them back.  `_partial`: conditional on
-the spec's own round trip only. -/
-theorem rust_import_roundtrip_partial (p : Nat) (hp : p = 4 ∨ p = 8) (hR : SpecRoundtripFlat p) (realloc : Bool)
-    (t : Ty) (v : Val) (hm : memFree t = true) (hv : Spec.hasTy t v = true) (ss : List Stmt) (es : List Expr)
-    (h : lower (rustCfg realloc) 0 t (.inp 0) = .ok (ss, es)) :
+/-- **Guest → host (import arguments, export results), memory-free types.**  `_partial`: conditional
+on the spec's own round trip at `t` only (a theorem: see `rust_import_roundtrip_memfree`). -/
+theorem rust_import_roundtrip_partial (p : Nat) (hp : p = 4 ∨ p = 8) (realloc : Bool)
+    (t : Ty) (hR : SpecRoundtripFlatAt p t) (v : Val) (hm : memFree t = true) (hv : Spec.hasTy t v = true)
+    (ss : List Stmt) (es : List Expr) (h : lower (rustCfg realloc) 0 t (.inp 0) = .ok (ss, es)) :
     ∃ cs, evalList { p, inputs := [.v v] } [] es = some (cs.map MV.c) ∧
       Spec.liftFlat p (Spec.lowerFlat p t v {}).2.mem t cs = some v :=
-  ⟨(Spec.lowerFlat p t v {}).1, (rust_lower_flat_is_spec p hp realloc t v hm hv ss es h).2, hR t v {} hv⟩
+  ⟨(Spec.lowerFlat p t v {}).1, (rust_lower_flat_is_spec p hp realloc t v hm hv ss es h).2, hR v {} hv⟩
+
+/-- both named statements hold at a type that uses linear memory: `string` -/
+theorem lift_flat_correct_string (p : Nat) (c : Cfg) : LiftFlatCorrectAt p c .string := by
+  intro cs m v lvl xs e env _ hl hx h
+  simp only [lift, pure, Except.pure, Except.ok.injEq] at h
+  subst h
+  match cs, hl with
+  | [a, n], hl =>
+    simp only [Spec.liftFlat, Option.some.injEq] at hl
+    subst hl
+    simp only [List.map_cons, List.map_nil] at hx
+    simp [pure1, eval, hx, opSem, pureSem]
+
+theorem spec_roundtrip_flat_string (p : Nat) : SpecRoundtripFlatAt p .string := by
+  intro v st hv
+  cases v <;> simp [Spec.hasTy] at hv
+  rename_i bs
+  exact liftFlat_lowerFlat_string p bs st (by simpa [Spec.hasTy] using hv)
+
+/-- **Host → guest for `string` — unconditional** (so the hypotheses of `rust_export_roundtrip_partial`
+are satisfiable at a type that uses linear memory, and the corollary is not vacuous). -/
+theorem rust_export_roundtrip_string (p : Nat) (v : Val) (st : Spec.St) (hv : Spec.hasTy .string v = true)
+    (xs : List Expr) (e : Expr) (env : Env) (hp : env.p = p)
+    (hx : evalList env (Spec.lowerFlat p .string v st).2.mem xs = some ((Spec.lowerFlat p .string v st).1.map MV.c))
+    (hl : lift (rustCfg true) 0 .string xs = .ok e) :
+    eval env (Spec.lowerFlat p .string v st).2.mem e = some (.v v) :=
+  rust_export_roundtrip_partial p .string (lift_flat_correct_string p _) (spec_roundtrip_flat_string p) v st hv xs e env hp hx hl
 
 /-- **Guest → host, memory-free types — unconditional.**  Whatever Rust code passes (import argument or
 export result of a type that does not use linear memory: any nesting of records, tuples, flags, enums,
@@ -198,6 +226,15 @@ theorem spec_roundtrip_flat_memfree (p : Nat) (m : Spec.Mem) (t : Ty) (v : Val) 
   liftFlat_lowerFlat p m v t st hm hv
 
 /-! ## Non-vacuity -/
+
+/-- the string corollary at a concrete instance: host lowers "hi" on wasm32, the generated lift of the two
+flat parameters yields "hi" -/
+example :
+    ∃ e, lift (rustCfg true) 0 .string [.inp 0, .inp 1] = .ok e ∧
+      eval { p := 4, inputs := (Spec.lowerFlat 4 .string (.str [104, 105]) {}).1.map MV.c }
+        (Spec.lowerFlat 4 .string (.str [104, 105]) {}).2.mem e = some (.v (.str [104, 105])) :=
+  ⟨_, rfl, rust_export_roundtrip_string 4 (.str [104, 105]) {} (by decide) [.inp 0, .inp 1] _ _ rfl rfl rfl⟩
+
 
 /-- `record { a: u8, b: list<u32, 2>, c: f64 }` is canonical, its `#[repr(C)]` layout is 24/8 on both
 widths; a record containing a tuple or a handle is not canonical. -/
